@@ -1,0 +1,76 @@
+//go:build verif
+
+// Code added for /verif runtime monitors: exported forwarders to unexported point routines.
+// Compiled only with -tags verif; adds no behaviour.
+
+package bw6633
+
+import "math/big"
+
+var _ = big.NewInt
+
+// ---- G1 ----
+
+// VerifG1JacExtended exposes the extended-Jacobian bucket type.
+type VerifG1JacExtended = g1JacExtended
+
+func (p *G1Jac) VerifMulWindowed(q *G1Jac, s *big.Int) *G1Jac { return p.mulWindowed(q, s) }
+
+func (p *G1Jac) VerifMulGLV(q *G1Jac, s *big.Int) *G1Jac { return p.mulGLV(q, s) }
+
+// VerifG1ExtOp applies one unexported bucket operation.
+func VerifG1ExtOp(op string, p, q *g1JacExtended, a *G1Affine) {
+	switch op {
+	case "add":
+		p.add(q)
+	case "double":
+		p.double(q)
+	case "addMixed":
+		p.addMixed(a)
+	case "subMixed":
+		p.subMixed(a)
+	case "doubleMixed":
+		p.doubleMixed(a)
+	case "doubleNegMixed":
+		p.doubleNegMixed(a)
+	default:
+		panic("unknown op")
+	}
+}
+
+func VerifG1AffineFromExt(p *G1Affine, q *g1JacExtended) { p.fromJacExtended(q) }
+func VerifG1JacFromExt(p *G1Jac, q *g1JacExtended)       { p.fromJacExtended(q) }
+func VerifG1JacUnsafeFromExt(p *G1Jac, q *g1JacExtended) { p.unsafeFromJacExtended(q) }
+
+// ---- G2 ----
+
+// VerifG2JacExtended exposes the extended-Jacobian bucket type.
+type VerifG2JacExtended = g2JacExtended
+
+func (p *G2Jac) VerifMulWindowed(q *G2Jac, s *big.Int) *G2Jac { return p.mulWindowed(q, s) }
+
+func (p *G2Jac) VerifMulGLV(q *G2Jac, s *big.Int) *G2Jac { return p.mulGLV(q, s) }
+
+// VerifG2ExtOp applies one unexported bucket operation.
+func VerifG2ExtOp(op string, p, q *g2JacExtended, a *G2Affine) {
+	switch op {
+	case "add":
+		p.add(q)
+	case "double":
+		p.double(q)
+	case "addMixed":
+		p.addMixed(a)
+	case "subMixed":
+		p.subMixed(a)
+	case "doubleMixed":
+		p.doubleMixed(a)
+	case "doubleNegMixed":
+		p.doubleNegMixed(a)
+	default:
+		panic("unknown op")
+	}
+}
+
+func VerifG2AffineFromExt(p *G2Affine, q *g2JacExtended) { p.fromJacExtended(q) }
+func VerifG2JacFromExt(p *G2Jac, q *g2JacExtended)       { p.fromJacExtended(q) }
+func VerifG2JacUnsafeFromExt(p *G2Jac, q *g2JacExtended) { p.unsafeFromJacExtended(q) }
